@@ -57,7 +57,7 @@ const A_CODEC: &str = "codec and crypto primitive crates are trusted (shared wit
 pub fn props() -> Vec<PropCfg> {
     vec![
         PropCfg { id: "C01", level: "exploration", scenarios: vec![&ROUNDTRIP], assumptions: vec![A_MODEL, A_CODEC] },
-        PropCfg { id: "C02", level: "exploration", scenarios: vec![&ROUNDTRIP_FULL, &PYJUDGE], assumptions: vec!["independent parser written from APPNOTE is the judge", A_CODEC, "literal 0xFFFF/0xFFFFFFFF without ZIP64 accepted"] },
+        PropCfg { id: "C02", level: "exploration", scenarios: vec![&ROUNDTRIP_FULL, &ZIP64, &PYJUDGE], assumptions: vec!["independent parser written from APPNOTE is the judge", A_CODEC, "literal 0xFFFF/0xFFFFFFFF without ZIP64 accepted"] },
         PropCfg { id: "C03", level: "exploration", scenarios: vec![&FOREIGN, &PYPRODUCER], assumptions: vec![A_CODEC, "the independent builder's own record of what it wrote is the oracle; CP437 decoding uses the harness's own table", "format-ambiguous layouts (signature bytes at the probe positions) are skipped and counted (R2)"] },
         PropCfg { id: "C04", level: "fault_enumeration", scenarios: vec![&BITROT, &HOSTILE_CRC], assumptions: vec![A_CODEC, "own CRC-32 implementation recomputes the checksum of the returned bytes", "AE-2 entries are exempt (covered by C16)"] },
         PropCfg { id: "C05", level: "exploration", scenarios: vec![&HOSTILE], assumptions: vec!["heap bound while opening: 1024 x input length + 8 MiB, measured by a counting global allocator (R9)", "step budget 4M + 16 x length I/O calls per handle; a wall-clock watchdog covers loops that perform no I/O", "harness built with overflow-checks and debug-assertions on"] },
